@@ -213,7 +213,11 @@ def run_case(case):
             d = abs(float(out[k][0]) - float(ref[k][0]))
             if upd("d" + k, d, TOL_E):
                 bad.append((k, d))
-        no = int(np.asarray(ref["norb"]).reshape(-1)[0])
+        # number of real orbitals (Molecule.norb ignores d shells, so count from the species under PM6)
+        if method == "PM6":
+            no = sum(9 if z in D_ELEMENTS_PM6 else (4 if z > 1 else 1) for z in Z)
+        else:
+            no = sum(4 if z > 1 else 1 for z in Z)
         d = np.abs(out["e_mo"][0][..., :no] - ref["e_mo"][0][..., :no]).max()  # (norb,) RHF or (2, norb) UHF
         if upd("d_emo", d, TOL_EMO):
             bad.append(("e_mo", d))
